@@ -168,15 +168,23 @@ def c20_2(ctx):
     rr = returns(h)
     ok = len(rr) == 1 and isinstance(rr[0].value, ast.Call) and unparse(rr[0].value.func) == f'{h.call_params[0].arg}.replace' and unparse(rr[0].value.args[0]) == h.call_params[1].arg
     ctx.check(ok, 'escape:helper-substitutes-token', h.site(), 'the helper replaces the given token in the given template text', '; '.join(unparse(r) for r in rr))
-    rs = [n for n in ast.walk(h.node) if isinstance(n, ast.Assign) and isinstance(n.value, ast.BinOp) and any(x is joins[0] for x in ast.walk(n.value))] if joins else []
-    ok = len(rs) == 1 and unparse(rs[0].value).startswith("'\\\\b' + '\\\\b|\\\\b'.join(") and unparse(rs[0].value).endswith(" + '\\\\b'")
+    from engine.helpers import fmt_view
+    rs = [n for n in ast.walk(h.node) if isinstance(n, ast.Assign) and isinstance(n.value, (ast.BinOp, ast.JoinedStr)) and any(x is joins[0] for x in ast.walk(n.value))] if joins else []
+    ok = len(rs) == 1
+    if ok:
+        fv = fmt_view(rs[0].value) or []
+        ok = len(fv) == 3 and fv[0] == ('lit', '\\b') and fv[2] == ('lit', '\\b') and fv[1][0] == 'field' and fv[1][2] == '' \
+            and isinstance(fv[1][1], ast.Call) and unparse(fv[1][1].func) == "'\\\\b|\\\\b'.join"
     ctx.check(ok, 'escape:word-bounded-alternation', h.site(), 'the names become a \\b-bounded alternation (whole identifiers only)', '; '.join(unparse(r.value) for r in rs))
     for q in (VS, SB):
         fn = ctx.repo.func(q)
         for n in ast.walk(fn.node):
             if isinstance(n, ast.Assign) and isinstance(n.targets[0], ast.Name) and n.targets[0].id in ('directives_regex', 'datatypes_regex'):
                 v = n.value
-                ok = isinstance(v, ast.Call) and unparse(v.func) == "'|'.join" and isinstance(v.args[0], ast.ListComp) and unparse(v.args[0].elt) == f"'\\\\.' + {unparse(v.args[0].generators[0].target)}"
+                ok = isinstance(v, ast.Call) and unparse(v.func) == "'|'.join" and isinstance(v.args[0], (ast.ListComp, ast.GeneratorExp))
+                if ok:
+                    fv = fmt_view(v.args[0].elt) or []
+                    ok = len(fv) == 2 and fv[0] == ('lit', '\\.') and fv[1][0] == 'field' and fv[1][2] == '' and unparse(fv[1][1]) == unparse(v.args[0].generators[0].target)
                 ctx.check(ok, f'escape:dot-prefix:{"vscode" if q == VS else "sublime"}:{n.targets[0].id}', fn.site(n), 'directive keywords are prefixed with an escaped dot', unparse(v))
 
 
@@ -252,7 +260,8 @@ def c20_3(ctx):
     ok = adds == {'self._instruction_mnemonics': 'mnemonic', 'self._macro_mnemonics': 'macro.mnemonic'}
     ctx.check(ok, 'source:model:sets-filled', iset.site(), 'instruction names go to the instruction set, macro names to the macro set', str(adds))
     pl = ctx.repo.func(m + 'predefined_labels')
-    srcs = sorted(unparse(l.iter) for l in walk_no_nested(pl.node) if isinstance(l, ast.For))
+    srcs = sorted([unparse(l.iter) for l in walk_no_nested(pl.node) if isinstance(l, ast.For)]
+                  + [unparse(g_.iter) for c_ in ast.walk(pl.node) if isinstance(c_, (ast.ListComp, ast.GeneratorExp)) for g_ in c_.generators])
     ctx.check(srcs == ['self.predefined_constants', 'self.predefined_data_blocks', 'self.predefined_memory_zones'], 'source:model:predefined-labels', pl.site(),
               'predefined names are the predefined constants, data blocks and memory zones', str(srcs))
 
@@ -280,10 +289,12 @@ def c20_4(ctx):
     ok = len(writes) == 1
     detail = '; '.join(unparse(w) for w in writes)
     if ok:
+        from engine.helpers import fmt_view
         d = deref(ctx, sb, writes[0].args[0], writes[0])
-        ok = isinstance(d, ast.BinOp) and isinstance(d.op, ast.Add) and isinstance(d.left, ast.Constant) and d.left.value == '%YAML 1.2\n---\n'
+        fv = fmt_view(d) or []
+        ok = len(fv) == 2 and fv[0] == ('lit', '%YAML 1.2\n---\n') and fv[1][0] == 'field' and fv[1][2] == ''
         if ok:
-            r = deref(ctx, sb, d.right, writes[0])
+            r = deref(ctx, sb, fv[1][1], writes[0])
             ok = isinstance(r, ast.Call) and unparse(r.func).endswith('.read')
         detail = unparse(d)
     ctx.check(ok, 'wellformed:sublime:yaml-header', sb.site(writes[0]) if writes else sb.site(),
